@@ -10,6 +10,10 @@ CHECKS = {
     text="Generated histories of public RSTWriter API calls are applied to the real writer and to an independent reference model; after every step serialisation must be repeatable, non-mutating and line-for-line equal to the model (indentation 3*d, option placement, heading frame). Exploration only: thousands of histories per run, no exhaustiveness.",
     note="Trusts CPython and Hypothesis; the reference model in props/C20.py is written from the property text. Blank lines are not constrained."),
 }
+CHECKS["C02"] = dict(level="exploration", design="4/C02", engine="module-generator-and-model",
+    technique="property-based testing: generated module ASTs + layouts, reference model vs indentation view of the page",
+    text="Random module ASTs (all command kinds, nesting, documented/undocumented, dangling doccomments, comment-rich layouts, mixed-case command names) are rendered and documented with default settings; the sequence, kind, signature, admonition, doc and members of every entry must equal an independent reference model, and comment/undocumented/dangling markers must be absent. Exploration: thousands of modules per run.",
+    note="Trusts the reference model (vlib/model.py, written from the property text and user docs), the renderer's soundness rules (validated against cmake in C05) and the indentation parser of vlib/rstview.py; doc texts are benign.")
 NOT_APPLICABLE = [
 ]
 
@@ -47,6 +51,8 @@ def main():
             "add_only": True,
         },
         "engines": [
+            {"name": "module-generator-and-model", "path": "vlib/", "serves_properties": ["C01", "C02", "C03", "C04", "C07", "C08", "C09", "C10", "C11", "C12"],
+             "kind_free_text": "Hypothesis strategies for CMake module ASTs (vlib/gen_cmake.py), layout-driven renderer (vlib/render.py), reference semantics (vlib/model.py), reST views (vlib/rstview.py), field-level comparison (vlib/compare.py)"},
             {"name": "stateful-writer-model", "path": "props/C20.py", "serves_properties": ["C20"],
              "kind_free_text": "Hypothesis-generated operation histories interpreted on the real RSTWriter and a reference document model"},
         ],
